@@ -40,9 +40,10 @@ EXPECT = [
 
 
 def _model_and_replay(ctx, rep, spec, cfg, label, workers, jobs, ignore=(), args=()):
+    # small batches: when a batch leaks, vrun re-runs it one case per process to attribute the leak
     cases = os.path.join(ctx.tmp, "%s.cases" % cfg)
     ctx.model(spec, cfg, emit_to=cases, timeout=ctx.pick(900, 3000), xmx="6g", workers=workers, ignore_cov=ignore)
-    m = ctx.replay(rep, cases, label=label, timeout=ctx.pick(900, 5400), jobs=jobs, args=list(args) + ([] if ctx.quick else ["--all-kinds"]))
+    m = ctx.replay(rep, cases, label=label, timeout=ctx.pick(900, 5400), jobs=jobs, args=list(args) + ["--batch", "300"] + ([] if ctx.quick else ["--all-kinds"]))
     os.unlink(cases)
     return m
 
